@@ -1515,3 +1515,173 @@ Proof.
   rewrite (inputs_preview_spec d Hnd) in Hin. destruct (existsb _ (f_params d)); [discriminate|].
   injection Hin as Hin. split; [symmetry; exact Hin|]. unfold in_sigs. rewrite <- Hin, map_map. reflexivity.
 Qed.
+(* ---- inputs_to_dataframe(n): rows over the same keys ------------------------------------- *)
+Definition cell (ks : list string) (vs : list val) (k : string) : val :=
+  match sassoc k (combine ks vs) with Some v => v | None => VNotData end.
+
+Lemma supd_app_notin {B} k (v : B) done l : ~ In k (keys done) -> supd k v (done ++ l) = done ++ supd k v l.
+Proof.
+  unfold supd, keys. induction done as [|[k' v'] r IH]; simpl; intro H; [reflexivity|].
+  destruct (String.eqb k k') eqn:E; [apply String.eqb_eq in E; subst; exfalso; apply H; auto|].
+  f_equal. apply IH. tauto.
+Qed.
+
+(* the first row opens one column per key *)
+Lemma add_row_first row : forall acc,
+  NoDup (keys acc ++ keys row) ->
+  add_row true acc row = Ok (acc ++ map (fun kv => (fst kv, [snd kv])) row).
+Proof.
+  induction row as [|[k v] r IH]; intros acc H; simpl; [rewrite List.app_nil_r; reflexivity|].
+  assert (Hn : ~ In k (keys acc)).
+  { intro HI. simpl in H. apply NoDup_remove_2 in H. apply H. apply in_or_app. auto. }
+  rewrite (supd_notin _ _ _ Hn), IH.
+  - rewrite <- List.app_assoc. reflexivity.
+  - rewrite keys_app, <- List.app_assoc. exact H.
+Qed.
+
+(* a later row over the same keys extends every column by its cell *)
+Lemma add_row_later todo : forall done (vs : list val),
+  NoDup (keys done ++ keys todo) -> List.length vs = List.length todo ->
+  add_row false (done ++ todo) (combine (keys todo) vs) =
+    Ok (done ++ map (fun cv => (fst (fst cv), snd (fst cv) ++ [snd cv])) (combine todo vs)).
+Proof.
+  induction todo as [|[k c] r IH]; intros done vs H Hl; destruct vs as [|v vs]; simpl in *; try discriminate.
+  - reflexivity.
+  - assert (Hn : ~ In k (keys done)).
+    { intro HI. apply NoDup_remove_2 in H. apply H. apply in_or_app. auto. }
+    assert (Hs : sassoc k (done ++ (k, c) :: r) = Some c).
+    { rewrite sassoc_app. apply sassoc_none_notin in Hn. rewrite Hn. unfold sassoc. simpl.
+      rewrite String.eqb_refl. reflexivity. }
+    rewrite Hs. rewrite (supd_app_notin _ _ _ _ Hn).
+    assert (Hu : supd k (c ++ [v]) ((k, c) :: r) = (k, c ++ [v]) :: r).
+    { unfold supd. simpl. rewrite String.eqb_refl. reflexivity. }
+    rewrite Hu. change (done ++ (k, c ++ [v]) :: r) with (done ++ [(k, c ++ [v])] ++ r).
+    rewrite List.app_assoc. rewrite IH.
+    + rewrite <- List.app_assoc. reflexivity.
+    + rewrite keys_app. simpl. rewrite <- List.app_assoc. exact H.
+    + lia.
+Qed.
+
+Definition columns (ks : list string) (table : list (list val)) : list (string * list val) :=
+  map (fun k => (k, map (fun vs => cell ks vs k) table)) ks.
+
+Lemma cells_of_row ks : forall vs, NoDup ks -> List.length vs = List.length ks ->
+  map (fun k => cell ks vs k) ks = vs.
+Proof.
+  intros vs Hnd Hl. pose proof (sassoc_combine_all ks vs Hnd (eq_sym Hl)) as H.
+  unfold cell. revert H. generalize (combine ks vs). intros m H.
+  revert vs Hl H. induction ks as [|k r IH]; intros [|v vs] Hl H; simpl in *; try discriminate; [reflexivity|].
+  injection H as H1 H2. rewrite H1. f_equal. inversion Hnd; subst. apply IH; auto.
+Qed.
+
+Lemma zip_extend (l : list string) (g : string -> list val) (h : string -> val) :
+  map (fun cv => (fst (fst cv), snd (fst cv) ++ [snd cv])) (combine (map (fun k => (k, g k)) l) (map h l))
+  = map (fun k => (k, g k ++ [h k])) l.
+Proof. induction l as [|k r IH]; simpl; [reflexivity|]. f_equal. exact IH. Qed.
+
+Lemma frame_cols_uniform ks table : NoDup ks ->
+  Forall (fun vs => List.length vs = List.length ks) table ->
+  forall done i, done <> [] -> i = List.length done ->
+  Forall (fun vs => List.length vs = List.length ks) done ->
+  frame_cols i (columns ks done) (map (fun vs => VMap "dict" (combine ks vs)) table) =
+    Ok (columns ks (done ++ table)).
+Proof.
+  intros Hnd Ht. induction Ht as [|vs table Hvs Ht IH]; intros done i Hne Hi Hd; simpl.
+  - rewrite List.app_nil_r. reflexivity.
+  - assert (Ei : Nat.eqb i 0 = false).
+    { apply Nat.eqb_neq. destruct done; [contradiction|]. simpl in Hi. lia. }
+    rewrite Ei.
+    assert (Hk : keys (columns ks done) = ks).
+    { unfold keys, columns. rewrite map_map. simpl. apply map_id. }
+    pose proof (add_row_later (columns ks done) [] vs) as Hadd. simpl in Hadd.
+    rewrite Hk in Hadd. rewrite Hadd; [|exact Hnd|unfold columns; rewrite map_length; exact Hvs].
+    assert (Hnext : map (fun cv => (fst (fst cv), snd (fst cv) ++ [snd cv])) (combine (columns ks done) vs)
+                    = columns ks (done ++ [vs])).
+    { replace (combine (columns ks done) vs)
+        with (combine (columns ks done) (map (fun k => cell ks vs k) ks))
+        by (rewrite (cells_of_row ks vs Hnd Hvs); reflexivity).
+      unfold columns. rewrite zip_extend. apply map_ext. intro k. rewrite map_app. reflexivity. }
+    rewrite Hnext. rewrite IH.
+    + rewrite <- List.app_assoc. reflexivity.
+    + destruct done; discriminate.
+    + rewrite List.app_length. simpl. lia.
+    + apply Forall_app. split; [exact Hd | repeat constructor; exact Hvs].
+Qed.
+
+Lemma zip_first (l : list string) (h : string -> val) :
+  map (fun kv => (fst kv, [snd kv])) (combine l (map h l)) = map (fun k => (k, [h k])) l.
+Proof. induction l as [|k r IH]; simpl; [reflexivity|]. f_equal. exact IH. Qed.
+
+Definition row_of (ks : list string) (vs : list val) : val := VMap "dict" (combine ks vs).
+Definition frame_of (ks : list string) (table : list (list val)) : val :=
+  VMap "DataFrame" (match table with
+                    | [] => []
+                    | _ => map (fun kc => (fst kc, VList (snd kc))) (columns ks table)
+                    end).
+
+(* rows over the same keys (same order): the table is the transposition, column by column *)
+Theorem to_frame_uniform ks table : NoDup ks ->
+  Forall (fun vs => List.length vs = List.length ks) table ->
+  to_frame (map (row_of ks) table) = Ok (frame_of ks table).
+Proof.
+  intros Hnd Ht. unfold to_frame, frame_of. destruct table as [|vs0 rest]; [reflexivity|].
+  inversion Ht as [|? ? Hv0 Hrest]; subst. simpl. unfold row_of at 1.
+  rewrite add_row_first; [|simpl; rewrite keys_combine_eq; [exact Hnd | exact Hv0]]. simpl.
+  assert (H1 : map (fun kv => (fst kv, [snd kv])) (combine ks vs0) = columns ks [vs0]).
+  { replace (combine ks vs0) with (combine ks (map (fun k => cell ks vs0 k) ks))
+      by (rewrite (cells_of_row ks vs0 Hnd Hv0); reflexivity).
+    rewrite zip_first. reflexivity. }
+  rewrite H1.
+  pose proof (frame_cols_uniform ks rest Hnd Hrest [vs0] 1) as Hf.
+  unfold row_of. rewrite Hf; [|discriminate|reflexivity|repeat constructor; exact Hv0].
+  assert (Hsame : same_lengths (columns ks ([vs0] ++ rest)) = true).
+  { unfold same_lengths, columns. destruct ks as [|k r]; [reflexivity|]. simpl.
+    apply forallb_forall. intros kc Hkc. apply in_map_iff in Hkc. destruct Hkc as [k' [<- _]]. simpl.
+    rewrite !map_length. apply Nat.eqb_refl. }
+  rewrite Hsame. reflexivity.
+Qed.
+
+(* ... as what InputsToDataframe computes from its row inputs and stores in `df` *)
+Theorem frame_on_run sem ins ks table : NoDup ks ->
+  Forall (fun vs => List.length vs = List.length ks) table ->
+  map c_value ins = map (row_of ks) table ->
+  on_run sem RunToFrame ins = Ok (frame_of ks table).
+Proof.
+  intros Hnd Ht Hv. unfold on_run.
+  assert (E : map snd (value_dict ins) = map c_value ins) by (unfold value_dict; rewrite map_map; reflexivity).
+  rewrite E, Hv. apply to_frame_uniform; assumption.
+Qed.
+
+Theorem frame_store c ks table :
+  chan_sig c = ("df", Some (HAtoms [ACls "DataFrame"])) ->
+  process_run_result (KFromMany "df") [c] (frame_of ks table) =
+    (expected_out [("df", Some (HAtoms [ACls "DataFrame"]))] (frame_of ks table), Ok (frame_of ks table)).
+Proof. intro Hs. apply process_from_many; [exact Hs | reflexivity]. Qed.
+
+(* ---- a hint rejection in the middle of the assignment loop (as the code is) ----------------- *)
+Lemma assign_all_prefix l : forall cs cs' e,
+  assign_all cs l = (cs', Some e) ->
+  exists done k v rest, l = done ++ (k, v) :: rest /\ assign_all cs done = (cs', None) /\
+                        assign1 cs' k v = Err e.
+Proof.
+  induction l as [|[k v] r IH]; intros cs cs' e H; simpl in H; [discriminate|].
+  destruct (assign1 cs k v) as [cs1|e1] eqn:E.
+  - destruct (IH _ _ _ H) as [done [k' [v' [rest [Hl [Hd He]]]]]].
+    exists ((k, v) :: done), k', v', rest. split; [rewrite Hl; reflexivity|]. split; [|exact He].
+    simpl. rewrite E. exact Hd.
+  - injection H as <- <-. exists [], k, v, r. repeat split. exact E.
+Qed.
+
+(* set_input_values fails with something else than ValueError only inside the loop: the keys
+   before the failing one -- keywords first, then the positional ones -- stay assigned *)
+Theorem set_input_values_partial cs pos kw cs' e :
+  set_input_values cs pos kw = (cs', Some e) -> e <> ValueErr ->
+  exists done k v rest, kw ++ combine (labels cs) pos = done ++ (k, v) :: rest /\
+    assign_all cs done = (cs', None) /\ assign1 cs' k v = Err e.
+Proof.
+  unfold set_input_values. intros H Hne.
+  destruct (Nat.ltb _ _); [injection H as _ <-; contradiction|].
+  destruct (existsb _ _); [injection H as _ <-; contradiction|].
+  destruct (negb _); [injection H as _ <-; contradiction|].
+  apply assign_all_prefix. exact H.
+Qed.
